@@ -64,7 +64,7 @@ func init() {
 // evidence-source states
 var (
 	c16Logs      = []string{"absent", "unreadable", "foreign-only", "raw", "variable", "uri", "local", "variable+uri", "raw+variable+uri", "foreign-raw+variable"}
-	c16Vars      = []string{"present", "absent", "short", "dotdot-name", "absolute-name", "symlink-out", "nul-name", "surrogate-name", "lookalike-symlink"}
+	c16Vars      = []string{"present", "absent", "short", "dotdot-name", "absolute-name", "symlink-out", "nul-name", "surrogate-name", "lookalike-symlink", "bom-name"}
 	c16Quotes    = []string{"none", "tpm+entry", "tpm", "report-proto", "raw+certs+entry", "raw+certs", "raw", "certs-only+entry", "hex(raw+certs+entry)", "base64(raw+certs+entry)", "tdx-raw", "tdx-tpm", "garbage", "empty-measurement", "tdx-tpm-long-mrtd", "tdx-tpm-short-mrtd"}
 	c16Providers = []string{"nil", "ok+entry", "ok", "failing", "tdx"}
 	c16Getters   = []string{"ok", "nil", "failing"}
@@ -82,7 +82,7 @@ func c16Plans(tier string) []core.Trace {
 	var out []core.Trace
 	vars := []int{0, 1}
 	if tier == "thorough" {
-		vars = []int{0, 1, 2, 3, 4, 5, 6, 7, 8}
+		vars = []int{0, 1, 2, 3, 4, 5, 6, 7, 8, 9}
 	}
 	for l := range c16Logs {
 		for _, v := range vars {
@@ -212,6 +212,13 @@ func runC16(r *core.Run) {
 		os.WriteFile(filepath.Join(outside, "Via-"+googleGUID), append([]byte{7, 0, 0, 0}, canary...), 0o644)
 		varName = []string{"link/Via", "Direct"}[r.Intn(2, "symlink-kind")]
 		nameBytes = ucs2(varName)
+	case "bom-name":
+		// CHAR16 names know no byte-order mark: U+FEFF at the start is a character of the name like
+		// any other. The named variable exists; so does a different one whose name is the rest.
+		varName = "\ufeffFirmwareRIM"
+		nameBytes = ucs2(varName)
+		os.WriteFile(filepath.Join(efiRoot, varName+"-"+googleGUID), append([]byte{7, 0, 0, 0}, varData...), 0o644)
+		os.WriteFile(filepath.Join(efiRoot, "FirmwareRIM-"+googleGUID), append([]byte{7, 0, 0, 0}, []byte("another variable's contents")...), 0o644)
 	case "lookalike-symlink":
 		// the named entry does not exist; entries whose names differ from it only in letter case,
 		// surrounding blanks or a normalised spelling are links that leave the root
@@ -481,7 +488,7 @@ func runC16(r *core.Run) {
 	}
 	// (a) local first
 	logUsable := logS != "absent" && logS != "unreadable" && opts.EventLogLocation != ""
-	varReadable := varS == "present"
+	varReadable := varS == "present" || varS == "bom-name"
 	var want []byte
 	wantWhat := ""
 	switch {
